@@ -357,8 +357,8 @@ class Hist:
         b = a + rng.choice([0, 1, 2, 4, 8, 16, 120, -3])
         return (a, b, rng.choice([1, 1, 1, 2, 3]))
 
-    def op_query(self, methods=None):
-        """one lookup; returns (item, reply)"""
+    def op_query(self, methods=None, dry=False):
+        """one lookup; returns (item, reply) -- with `dry` the item only (it is neither executed nor recorded)"""
         rng = self.rng
         methods = methods or self.cfg.get("queries", list(world.QUERY_M))
         mname = rng.choice(methods)
@@ -378,6 +378,8 @@ class Hist:
         a, b, st = self.rand_q(offsets=m in (2, 3, 9))
         kf = rng.choice([0, 0, 1, 2]) if m in (0, 1, 2, 3) else 0
         it = [40, rng.choice(scopes), m, kf, a, b, st]
+        if dry:
+            return it, None
         rep = self.emit(it)
         return it, rep
 
